@@ -919,6 +919,8 @@ class Interp:
             fr.cells[i + 1].v = a
         bname = 'bb0'
         self.depth += 1
+        if self.depth > getattr(self, 'max_depth', 0):
+            self.max_depth = self.depth
         if self.depth > 200:
             raise Truncated('call depth')
         try:
